@@ -243,6 +243,7 @@ func RunJob(t *testing.T, job Job) WorkerResult {
 				if hiB > len(b) {
 					hiB = len(b)
 				}
+				os.WriteFile(fmt.Sprintf("/tmp/hunt-mismatch-%s-%d.json", job.Property, idx), []byte(fmt.Sprintf("{\"scenario\": %s, \"signature\": \"x\", \"hash\": \"\"}", raw)), 0o644)
 				res.MismatchNotes = append(res.MismatchNotes, fmt.Sprintf("run %d diverges at line %d\nCOMMON+A:\n%s\nB:\n%s\nscenario=%s", idx, i,
 					strings.Join(a[lo:hiA], "\n"), strings.Join(b[i:hiB], "\n"), truncate(string(raw), 1500)))
 			}
